@@ -26,6 +26,14 @@ type Disk struct {
 	Touched        [][2]int
 	Fired          bool
 
+	// transient fault: ReadAt call number onceAt (1-based) fails with EIO and
+	// delivers nothing; the disk is healthy before and after
+	onceAt int
+
+	// sequential state for the bytes.Reader-like flavour (Read/Seek/Len): it
+	// must never influence ReadAt
+	seqPos int64
+
 	// Quiet: no events, ticks or yields.  Needed when a decoder that runs its
 	// own goroutine (kjk/lzma) reads the disk: its reads are not ordered
 	// relative to the calling task, so they must not enter the trace.
@@ -48,6 +56,9 @@ func (d *Disk) DrawProfile() {
 	d.run.Event("disk", fmt.Sprintf("eofeager=%v", d.EOFEager), fmt.Sprintf("%s len=%d", d.name, len(d.Data)))
 }
 
+// FailOnceAtCall plans a TRANSIENT EIO for ReadAt call number n (1-based).
+func (d *Disk) FailOnceAtCall(n int) { d.onceAt = n }
+
 // FailRange plans EIO for any read overlapping [lo,hi).
 func (d *Disk) FailRange(lo, hi int) { d.failLo, d.failHi = lo, hi }
 
@@ -62,6 +73,12 @@ func (d *Disk) ReadAt(p []byte, off int64) (int, error) {
 		panic(rt.BudgetExceeded{Steps: int64(d.Calls)})
 	}
 	r.Yield("readat")
+	if d.onceAt > 0 && d.Calls == d.onceAt {
+		d.Fired = true
+		r.Fault("disk.transient-eio")
+		r.Event("readat", "transient-eio", fmt.Sprintf("%s off=%d len=%d call=%d", d.name, off, len(p), d.Calls))
+		return 0, simio.ErrIO
+	}
 	if off < 0 {
 		return 0, fmt.Errorf("simdisk: negative offset")
 	}
@@ -124,3 +141,46 @@ func (d *Disk) quietReadAt(p []byte, off int64) (int, error) {
 	}
 	return n, nil
 }
+
+// Seq wraps a Disk as a bytes.Reader-like object: besides io.ReaderAt it has
+// a sequential position with Read, Seek, Len and Size.  Callers commonly hand
+// such objects (*bytes.Reader, *os.File) to the library; the sequential state
+// must not influence what ReadAt-based code sees.
+type Seq struct {
+	*Disk
+}
+
+func (s Seq) Read(p []byte) (int, error) {
+	if s.seqPos >= int64(len(s.Data)) {
+		return 0, io.EOF
+	}
+	n := copy(p, s.Data[s.seqPos:])
+	s.Disk.seqPos += int64(n)
+	return n, nil
+}
+
+func (s Seq) Seek(off int64, whence int) (int64, error) {
+	switch whence {
+	case io.SeekStart:
+	case io.SeekCurrent:
+		off += s.seqPos
+	case io.SeekEnd:
+		off += int64(len(s.Data))
+	}
+	if off < 0 {
+		return 0, fmt.Errorf("simdisk: negative position")
+	}
+	s.Disk.seqPos = off
+	return off, nil
+}
+
+// Len is the number of UNREAD bytes, like bytes.Reader.Len.
+func (s Seq) Len() int {
+	if s.seqPos >= int64(len(s.Data)) {
+		return 0
+	}
+	return int(int64(len(s.Data)) - s.seqPos)
+}
+
+// Size is the total size, like bytes.Reader.Size.
+func (s Seq) Size() int64 { return int64(len(s.Data)) }
